@@ -512,3 +512,20 @@ def truth_table(ctx, rule, f, atoms, expected, what, by=()):
     ctx.ob(rule, f, what, ok, node=node, detail="" if ok else ("; ".join(sorted({m for _, m in bad}))[:600] or "no return statement"),
            by=by or (f"{nrows} rows over {len(rets)} return(s)",))
     return ok
+
+
+def origin_of(fn, e, depth=5):
+    """follow a local name back through its definitions in fn (plain `name = value` assignments; definitions by the constant None are
+    skipped: they stand for "nothing", and a use that unpacks or dereferences the value cannot be reached with them).  Returns the
+    originating expression, or the name itself when the trail is not unique."""
+    seen = 0
+    while isinstance(e, ast.Name) and seen < depth:
+        defs = [n for n in own_walk(fn) if isinstance(n, (ast.Assign, ast.AnnAssign)) and getattr(n, "value", None) is not None
+                and (n.targets if isinstance(n, ast.Assign) else [n.target]) == [t for t in (n.targets if isinstance(n, ast.Assign) else [n.target])
+                                                                                     if isinstance(t, ast.Name) and t.id == e.id]]
+        defs = [d for d in defs if not (isinstance(d.value, ast.Constant) and d.value.value is None)]
+        if len(defs) != 1:
+            return e
+        e = defs[0].value
+        seen += 1
+    return e
